@@ -1029,6 +1029,68 @@ def map_back(trees):
     return al
 
 
+def canon_params(trees, al):
+    """Parameters of non-public functions that were renamed (same number, same
+    positions) get the names of the pinned tree back, inside the function and
+    in keyword arguments of its calls.  Public signatures are left alone: a
+    renamed public parameter is a change of behaviour for keyword callers."""
+    pinned = load_pinned()
+    cur = function_table(trees)
+    done = []
+    for q in sorted(cur):
+        node, mname, cls = cur[q]
+        k = al.moved.get(q, q)
+        pk = pinned['functions'].get(k)
+        if pk is None or not pk.get('src') or not node.name.startswith('_') \
+                or node.name.startswith('__'):
+            continue
+        try:
+            knode = ast.parse(pk['src']).body[0]
+        except SyntaxError:
+            continue
+        if not isinstance(knode, (ast.FunctionDef, ast.AsyncFunctionDef)):
+            continue
+
+        def plist(fn):
+            a = fn.args
+            if a.vararg or a.kwarg or a.posonlyargs:
+                return None
+            return [x.arg for x in a.args + a.kwonlyargs]
+        pp, cp = plist(knode), plist(node)
+        if pp is None or cp is None or len(pp) != len(cp) or pp == cp or \
+                len(knode.args.args) != len(node.args.args):
+            continue
+        ren = {c: p for c, p in zip(cp, pp) if c != p}
+        used = {n.id for n in ast.walk(node) if isinstance(n, ast.Name)} | \
+            {a.arg for n in ast.walk(node)
+             if isinstance(n, (ast.FunctionDef, ast.AsyncFunctionDef,
+                               ast.Lambda)) and n is not node
+             for a in n.args.args + n.args.kwonlyargs}
+        if any(p in used and p not in ren for p in ren.values()) or \
+                len(set(ren.values())) != len(ren) or \
+                set(ren.values()) & (set(cp) - set(ren)):
+            continue        # a pinned name is taken by something else
+        # simultaneous renaming (a swap of two names is a mapping as well)
+        for a in node.args.args + node.args.kwonlyargs:
+            a.arg = ren.get(a.arg, a.arg)
+        for n in ast.walk(node):
+            if isinstance(n, ast.Name) and n.id in ren:
+                n.id = ren[n.id]
+        for t in trees.values():
+            for c in ast.walk(t):
+                if not isinstance(c, ast.Call):
+                    continue
+                f = c.func
+                nm = f.id if isinstance(f, ast.Name) else (
+                    f.attr if isinstance(f, ast.Attribute) else None)
+                if nm == node.name:
+                    for kw in c.keywords:
+                        if kw.arg in ren:
+                            kw.arg = ren[kw.arg]
+        done.append((k, sorted(ren.items())))
+    return done
+
+
 # ----------------------------------------------------------------------
 # A helper of the pinned tree that was inlined into its callers and deleted
 # is put back: where the caller contains the pinned body statement for
